@@ -478,10 +478,6 @@ func (ps *c20PS) digitSum(lq, lp, w int, shape []int, fast32 bool) (sum *big.Int
 	}
 	for i := range shape {
 		if w == 0 {
-			if fast32 {
-				recombines = false // mask = 0: every digit is zero
-				continue
-			}
 			sum.Add(sum, new(big.Int).SetUint64(ps.Q[i]-1))
 			continue
 		}
@@ -489,7 +485,7 @@ func (ps *c20PS) digitSum(lq, lp, w int, shape []int, fast32 bool) (sum *big.Int
 		d.Sub(d, big.NewInt(1))
 		d.Mul(d, big.NewInt(int64(shape[i])))
 		sum.Add(sum, d)
-		if shape[i]*w < bits.Len64(ps.Q[i]-1) {
+		if shape[i]*w < bits.Len64(ps.Q[i]-1) { // cannot happen since 170d739 (digit count = ceil(bitlen/w)); kept as a monitor
 			recombines = false
 		}
 	}
